@@ -87,6 +87,8 @@ def rOut (r : Obj.R Val) : String :=
   `ex <expr>` with <expr> in prefix form over space-separated words:
     v <val> | U | g <tag> <val> | q <tag> <expr> | u <uop> <expr> | b <bop> <expr> <expr>
     | a <expr> <expr> | o <expr> <expr> | c <expr> <expr> <expr>
+    | A <binop> <leaf> <expr>  (`leaf op= expr`) | M <binop> <expr b> <expr k> <prop> <expr>  (`b[k] op= expr`),
+      <prop> = d <val> | a <gtag> <stag> <val>
   <val> = a primitive token, or `O(id;kind;valueOf;toString;fk;chain;layers)` with kind `d` = Date (other
   kinds only tell the harness how to build the object), fk = `-` | `F<id>` | `Fp` | `B<fk>`,
   chain = `-` | ids joined by `.`, layers = `-` | layers joined by `/`, layer = `e` | keys joined by `.`,
@@ -141,6 +143,11 @@ def bop? (t : String) : Option Ops2.BOp :=
   | some o => some (.num o)
   | none => (cmp? t).map .cmp
 
+def prop? : List String → Option (Ops2.PropK × List String)
+  | "d" :: t :: r => (vl? t).map fun v => (.data v, r)
+  | "a" :: g :: st :: t :: r => (vl? t).map fun v => (.acc g st v, r)
+  | _ => none
+
 partial def ex? : List String → Option (Ops2.Ex × List String)
   | "v" :: t :: r => (vl? t).map fun v => (.leaf (.value v), r)
   | "U" :: r => some (.leaf .unres, r)
@@ -151,6 +158,19 @@ partial def ex? : List String → Option (Ops2.Ex × List String)
   | "a" :: r => do let (a, r) ← ex? r; let (b, r) ← ex? r; pure (.and a b, r)
   | "o" :: r => do let (a, r) ← ex? r; let (b, r) ← ex? r; pure (.or a b, r)
   | "c" :: r => do let (c, r) ← ex? r; let (a, r) ← ex? r; let (b, r) ← ex? r; pure (.cond c a b, r)
+  | "A" :: op :: r => do
+    let o ← bin? op
+    let (l, r) ← ex? r
+    match l with
+    | .leaf lref => do let (e, r) ← ex? r; pure (.asg o lref e, r)
+    | _ => none
+  | "M" :: op :: r => do
+    let o ← bin? op
+    let (b, r) ← ex? r
+    let (k, r) ← ex? r
+    let (p, r) ← prop? r
+    let (e, r) ← ex? r
+    pure (.asgMem o b k p e, r)
   | _ => none
 
 def vlOut : Ops2.Vl → String
